@@ -185,4 +185,108 @@ theorem cmpK_trans (c : Bool) (a b d : Bytes × Nat) (h1 : cmpK c a b > 0) (h2 :
         have := tieBreak_trans h2 h1
         rw [if_neg (by omega)]; exact this
 
+/-! ### vnum (integer key) mode -/
+
+theorem enc_length_mono {a b : Nat} (h : a ≤ b) : (Vnum.enc a).length ≤ (Vnum.enc b).length := by
+  induction a using Nat.strongRecOn generalizing b with
+  | _ a ih =>
+    rw [Vnum.enc]
+    split
+    · have := Vnum.enc_length_pos b; simp; omega
+    · rename_i ha
+      have eb : Vnum.enc b = (255 - b % 128) :: Vnum.enc (b / 128) := by rw [Vnum.enc, dif_neg (by omega)]
+      rw [eb]
+      simp only [List.length_cons]
+      have := ih (a / 128) (by omega) (b := b / 128) (Nat.div_le_div_right h)
+      omega
+
+theorem enc_length_le10 {a : Nat} (h : a < 2 ^ 63) : (Vnum.enc a).length ≤ Gen.IW_VNUMBUFSZ := by
+  have := Vnum.enc_length_le 9 a (by
+    have : (2 : Nat) ^ 63 ≤ 128 ^ (9 + 1) := by decide
+    omega)
+  simpa [Gen.IW_VNUMBUFSZ] using this
+
+theorem decBody_enc (a : Nat) : decBody (Vnum.enc a) = a := by
+  have := dec_stored [] a
+  rw [List.append_nil] at this
+  simp [decBody, this]
+
+theorem cmpVnumBody_enc {a b : Nat} (ha : a < 2 ^ 63) (hb : b < 2 ^ 63) :
+    cmpVnumBody (Vnum.enc a) (Vnum.enc b)
+      = if (Vnum.enc b).length = (Vnum.enc a).length then some (cmp3 (a : Int) (b : Int)) else none := by
+  have la := enc_length_le10 ha
+  have lb := enc_length_le10 hb
+  unfold cmpVnumBody
+  by_cases hl : (Vnum.enc b).length = (Vnum.enc a).length
+  · rw [if_neg (by omega), if_pos hl, decBody_enc, decBody_enc]
+  · rw [if_pos (Or.inl hl), if_neg hl]
+
+/-- sign of the length short-cut: a longer encoding means a larger number -/
+theorem enc_length_sign {a b : Nat} (hl : ¬ (Vnum.enc b).length = (Vnum.enc a).length) :
+    sgn (((Vnum.enc b).length : Int) - ((Vnum.enc a).length : Int)) = (if b > a then 1 else -1) ∧ a ≠ b := by
+  have m1 : a ≤ b → (Vnum.enc a).length ≤ (Vnum.enc b).length := enc_length_mono
+  have m2 : b ≤ a → (Vnum.enc b).length ≤ (Vnum.enc a).length := enc_length_mono
+  refine ⟨?_, fun e => hl (by rw [e])⟩
+  unfold sgn
+  repeat' split
+  all_goals omega
+
+theorem sgn_cmp3 (a b : Nat) : sgn (cmp3 (a : Int) (b : Int)) = if b > a then 1 else if b < a then -1 else 0 := by
+  rw [cmp3_nat]; unfold sgn
+  repeat' split
+  all_goals omega
+
+theorem cmpKeys_vnum_nc {a b : Nat} (c2 : Nat) (ha : a < 2 ^ 63) (hb : b < 2 ^ 63) :
+    sgn (cmpKeys .vnum false (Vnum.enc a) (Vnum.enc b) c2) = if b > a then 1 else if b < a then -1 else 0 := by
+  simp only [cmpKeys, cmpPrefix, reduceCtorEq, and_false, if_false, Bool.false_eq_true,
+    cmpVnumBody_enc ha hb]
+  by_cases hl : (Vnum.enc b).length = (Vnum.enc a).length
+  · simp only [hl, if_true]; exact sgn_cmp3 a b
+  · simp only [hl, if_false]
+    have := enc_length_sign hl
+    rw [this.1]
+    repeat' split
+    all_goals omega
+
+theorem cmpKeys_vnum_c {a b : Nat} (c1 c2 : Nat) (ha : a < 2 ^ 63) (hb : b < 2 ^ 63) :
+    sgn (cmpKeys .vnum true (stored true (Vnum.enc a) c1) (Vnum.enc b) c2)
+      = if b > a then 1 else if b < a then -1 else if c2 > c1 then 1 else if c2 < c1 then -1 else 0 := by
+  have hl : ((Vnum.enc c1 ++ Vnum.enc a).length : Int) - ((Vnum.enc c1).length : Int)
+      = ((Vnum.enc a).length : Int) := by simp; omega
+  have hp : ¬ (((Vnum.enc a).length : Int) < 1) := by have := Vnum.enc_length_pos a; omega
+  simp only [cmpKeys, cmpPrefix, stored, if_true, dec_stored, hl, List.drop_left, hp, if_false,
+    reduceCtorEq, and_false, cmpVnumBody_enc ha hb]
+  by_cases hl : (Vnum.enc b).length = (Vnum.enc a).length
+  · simp only [hl, if_true]
+    by_cases hr : cmp3 (a : Int) (b : Int) = 0
+    · have : ¬ b > a ∧ ¬ b < a := by
+        rw [cmp3_nat] at hr
+        repeat' split at hr
+        all_goals omega
+      simp only [hr, if_true, this.1, this.2, if_false]
+      exact sgn_cmp3 c1 c2
+    · simp only [hr, if_false]
+      rw [sgn_cmp3]
+      rw [cmp3_nat] at hr
+      repeat' split
+      all_goals omega
+  · simp only [hl, if_false]
+    have := enc_length_sign hl
+    rw [this.1]
+    repeat' split
+    all_goals omega
+
+/-- comparison of two effective integer keys `(number, compound part)` through `_cmp_keys` in
+    vnum mode; the number is stored in its vnum encoding (`_to_effective_key`). -/
+def cmpV (compound : Bool) (x y : Nat × Nat) : Int :=
+  cmpKeys .vnum compound (stored compound (Vnum.enc x.1) x.2) (Vnum.enc y.1) y.2
+
+theorem sgn_pos {i : Int} : sgn i = 1 ↔ i > 0 := by
+  unfold sgn; repeat' split
+  all_goals omega
+
+theorem sgn_zero {i : Int} : sgn i = 0 ↔ i = 0 := by
+  unfold sgn; repeat' split
+  all_goals omega
+
 end IwModel.Cmp
